@@ -154,7 +154,10 @@ func NewRedisOutput(cfg RedisOutputConfig) *RedisOutput {
 		logger: log.WithLogger(config.LogModuleName(fmt.Sprintf("[RedisOutput(%s)] ", cfg.InputName))),
 	}
 	ro.bisyncOffset.Store(-1)
-	if ro.cfg.CanTransaction && ro.cfg.Redis.IsCluster() && !ro.bisyncEnabled() {
+	if (ro.cfg.CanTransaction || ro.cfg.ReplayPipeline) && ro.cfg.Redis.IsCluster() && !ro.bisyncEnabled() {
+		// neither sender may retry a redirected command in place: the transactional one must not
+		// split its batch, and the pipelined one already has later batches in flight, so a
+		// command retried by the receiver would take effect after its successors
 		ro.cfg.Redis.GetClusterOptions().HandleMoveErr = false
 		ro.cfg.Redis.GetClusterOptions().HandleAskErr = false
 	}
@@ -946,7 +949,7 @@ func (ro *RedisOutput) sendCmdsBatch(replayWait usync.WaitCloser, conn client.Re
 		handleError := func(bat *cmdBatcher, err error) {
 			if errors.Is(err, common.ErrMove) || errors.Is(err, common.ErrAsk) || errors.Is(err, common.ErrCrossSlots) {
 				// @TODO split cmdQueue to different slots for executing,
-				if ro.cfg.CanTransaction && ro.cfg.Redis.IsCluster() {
+				if ro.cfg.Redis.IsCluster() {
 					err = handleDirectError(err)
 				}
 				ro.logger.Errorf("send error : error(%v), offset(%d)", err, bat.offset)
